@@ -456,6 +456,19 @@ impl Blockchain {
                 // crash if total supply has changed
                 self.check_total_supply(configs).await;
 
+                // the blocks that joined the longest chain together with this one (a fork that was stored
+                // beside the chain and has now overtaken it) confirm their transactions as well: a block
+                // beside the chain takes nothing out of the pool, so this is where they leave it
+                for hash in new_chain.iter() {
+                    if *hash == block_hash {
+                        // (its own turn comes in add_block_success)
+                        continue;
+                    }
+                    if let Some(block) = self.blocks.get(hash) {
+                        mempool.delete_transactions(&block.transactions);
+                    }
+                }
+
                 self.add_block_success(block_hash, storage, mempool, configs)
                     .await;
 
